@@ -92,17 +92,17 @@ func init() {
 			if n == 0 {
 				r.Fail(f.Name()+":no-assembly", f.Decl.Pos(), nil, "Registry.NewAssembly never builds an assembly")
 			}
-			ast.Inspect(f.Decl.Body, func(nd ast.Node) bool {
+			inspect(f.Decl.Body, func(nd ast.Node) bool {
 				call, ok := nd.(*ast.CallExpr)
 				if !ok || r.P.CalleeFunc(info, call) != newA || len(call.Args) != 2 {
 					return true
 				}
 				r.Site(call.Pos(), "NewAssembly arguments")
 				for i, want := range []*types.Var{ops, runners} {
-					sl, ok := ast.Unparen(call.Args[i]).(*ast.SliceExpr)
+					sl, ok := deref(info, call.Args[i]).(*ast.SliceExpr)
 					good := false
 					if ok && sl.Low == nil && sl.High != nil && prog.SelField(info, sl.High) == tc {
-						if vc, ok := ast.Unparen(sl.X).(*ast.CallExpr); ok {
+						if vc, ok := deref(info, sl.X).(*ast.CallExpr); ok {
 							if sel, ok := ast.Unparen(vc.Fun).(*ast.SelectorExpr); ok && sel.Sel.Name == "Values" && prog.SelField(info, sel.X) == want {
 								good = true
 							}
@@ -131,7 +131,7 @@ func init() {
 				f := r.P.Func("jobs", h)
 				mut := r.P.FuncObj("jobs", m)
 				var lit *ast.FuncLit
-				ast.Inspect(f.Decl.Body, func(nd ast.Node) bool {
+				inspect(f.Decl.Body, func(nd ast.Node) bool {
 					if send, ok := nd.(*ast.SendStmt); ok && prog.SelField(f.Pkg.TypesInfo, send.Chan) == tq {
 						lit, _ = ast.Unparen(send.Value).(*ast.FuncLit)
 					}
@@ -207,7 +207,7 @@ func init() {
 			set := r.P.FuncObj("jobs", "(*jobStatus).Set")
 			paused := r.P.Pkg("jobs").Types.Scope().Lookup("StatusPaused")
 			var okVar types.Object
-			ast.Inspect(f.Decl.Body, func(nd ast.Node) bool {
+			inspect(f.Decl.Body, func(nd ast.Node) bool {
 				if as, ok := nd.(*ast.AssignStmt); ok && len(as.Rhs) == 1 && len(as.Lhs) >= 1 {
 					if call, ok := ast.Unparen(as.Rhs[0]).(*ast.CallExpr); ok && r.P.CalleeFunc(info, call) == healthy {
 						okVar = prog.IdentObj(info, as.Lhs[0])
@@ -262,12 +262,12 @@ func init() {
 				fld := r.P.Field("jobs", "Assembly", m.field)
 				hasFn := r.P.FuncObj("jobs", m.has)
 				ok := false
-				ast.Inspect(h.Decl.Body, func(nd ast.Node) bool {
+				inspect(h.Decl.Body, func(nd ast.Node) bool {
 					rs, isRs := nd.(*ast.RangeStmt)
 					if !isRs || prog.SelField(hi, rs.X) != fld {
 						return true
 					}
-					ast.Inspect(rs.Body, func(mm ast.Node) bool {
+					inspect(rs.Body, func(mm ast.Node) bool {
 						is, isIf := mm.(*ast.IfStmt)
 						if !isIf {
 							return true
@@ -289,7 +289,7 @@ func init() {
 						}
 						return true
 					})
-					ast.Inspect(rs.Body, func(mm ast.Node) bool {
+					inspect(rs.Body, func(mm ast.Node) bool {
 						if b, isB := mm.(*ast.BranchStmt); isB {
 							r.Fail(h.Name()+":partial:"+m.field, b.Pos(), nil, "Healthy can skip members (%s)", b.Tok)
 						}
@@ -309,7 +309,7 @@ func init() {
 			for _, mname := range []string{"runners", "operators"} {
 				fld := r.P.Field("jobs", "Registry", mname)
 				ok := false
-				ast.Inspect(pg.Decl.Body, func(nd ast.Node) bool {
+				inspect(pg.Decl.Body, func(nd ast.Node) bool {
 					rs, isRs := nd.(*ast.RangeStmt)
 					if !isRs {
 						return true
@@ -317,7 +317,7 @@ func init() {
 					if call, isCall := ast.Unparen(rs.X).(*ast.CallExpr); !isCall || r.P.CalleeFunc(pi, call) != lp {
 						return true
 					}
-					ast.Inspect(rs.Body, func(m ast.Node) bool {
+					inspect(rs.Body, func(m ast.Node) bool {
 						if call, isCall := m.(*ast.CallExpr); isCall {
 							if sel, isSel := ast.Unparen(call.Fun).(*ast.SelectorExpr); isSel && sel.Sel.Name == "Delete" && prog.SelField(pi, sel.X) == fld && len(call.Args) == 1 && prog.IdentObj(pi, call.Args[0]) == prog.IdentObj(pi, rs.Value) {
 								ok = true
@@ -336,33 +336,58 @@ func init() {
 			lt := r.P.Func("jobs", "(*LivenessTracker).Purge")
 			li := lt.Pkg.TypesInfo
 			mField := r.P.Field("jobs", "LivenessTracker", "m")
+			// two spellings: `for id, hb := range lt.m { if <expired> { report; delete(lt.m, id) } }` and
+			// `maps.DeleteFunc(lt.m, func(id, hb) bool { if <expired> { report; return true }; return false })`
 			var cond ast.Expr
-			var loop *ast.RangeStmt
-			ast.Inspect(lt.Decl.Body, func(nd ast.Node) bool {
-				if rs, ok := nd.(*ast.RangeStmt); ok && prog.SelField(li, rs.X) == mField {
-					loop = rs
-					ast.Inspect(rs.Body, func(m ast.Node) bool {
-						if is, ok := m.(*ast.IfStmt); ok && cond == nil {
-							cond = is.Cond
+			var body *ast.BlockStmt
+			var at token.Pos
+			hb := ""
+			viaDeleteFunc := false
+			inspect(lt.Decl.Body, func(nd ast.Node) bool {
+				switch x := nd.(type) {
+				case *ast.RangeStmt:
+					if prog.SelField(li, x.X) == mField && body == nil {
+						body, at = x.Body, x.Pos()
+						if id, ok := x.Value.(*ast.Ident); ok {
+							hb = id.Name
 						}
-						return true
-					})
+					}
+				case *ast.CallExpr:
+					if c, ok := isCallToNamed(li, x, "maps", "DeleteFunc"); ok && len(c.Args) == 2 && prog.SelField(li, c.Args[0]) == mField && body == nil {
+						if lit, ok := ast.Unparen(c.Args[1]).(*ast.FuncLit); ok {
+							var names []string
+							for _, f := range lit.Type.Params.List {
+								for _, n := range f.Names {
+									names = append(names, n.Name)
+								}
+							}
+							if len(names) == 2 {
+								body, at, hb, viaDeleteFunc = lit.Body, x.Pos(), names[1], true
+							}
+						}
+					}
 				}
 				return true
 			})
-			if loop == nil || cond == nil {
+			var ifStmt *ast.IfStmt
+			if body != nil {
+				ast.Inspect(body, func(m ast.Node) bool {
+					if is, ok := m.(*ast.IfStmt); ok && ifStmt == nil {
+						ifStmt = is
+						cond = is.Cond
+					}
+					return true
+				})
+			}
+			if body == nil || cond == nil {
 				r.Error("undecided: LivenessTracker.Purge shape")
 				return
-			}
-			hb := ""
-			if id, ok := loop.Value.(*ast.Ident); ok {
-				hb = id.Name
 			}
 			r.orderDomExpr(li, cond, lt.Name()+":expiry", map[string]string{hb: "hb", "lt.clock.Now().Add(-lt.deadline)": "cutoff"}, nil,
 				func(e odEnv) orderdom.Value { return orderdom.Bool(e.Rank["hb"] < e.Rank["cutoff"]) }, "lastHeartbeat < now - deadline")
 			// the purged id is deleted from the tracker and reported
 			del, rep := false, false
-			ast.Inspect(loop.Body, func(nd ast.Node) bool {
+			inspect(ifStmt.Body, func(nd ast.Node) bool {
 				if call, ok := nd.(*ast.CallExpr); ok {
 					if id, ok := call.Fun.(*ast.Ident); ok && id.Name == "delete" && len(call.Args) == 2 && prog.SelField(li, call.Args[0]) == mField {
 						del = true
@@ -371,15 +396,30 @@ func init() {
 						rep = true
 					}
 				}
+				if ret, ok := nd.(*ast.ReturnStmt); ok && viaDeleteFunc && len(ret.Results) == 1 {
+					if tv, ok := li.Types[ret.Results[0]]; ok && tv.Value != nil && tv.Value.String() == "true" {
+						del = true
+					}
+				}
 				return true
 			})
+			if viaDeleteFunc {
+				// and entries that are not expired are kept
+				for _, st := range body.List {
+					if ret, ok := st.(*ast.ReturnStmt); ok && len(ret.Results) == 1 {
+						if tv, ok := li.Types[ret.Results[0]]; ok && tv.Value != nil && tv.Value.String() == "true" {
+							r.Fail(lt.Name()+":keeps-live", ret.Pos(), nil, "maps.DeleteFunc's predicate returns true outside the expiry test: live nodes are purged")
+						}
+					}
+				}
+			}
 			if !del || !rep {
-				r.Fail(lt.Name()+":effect", loop.Pos(), nil, "an expired node must be both removed from the tracker and reported to the registry")
+				r.Fail(lt.Name()+":effect", at, nil, "an expired node must be both removed from the tracker and reported to the registry")
 			}
 			// Heartbeat stores now
 			hbf := r.P.Func("jobs", "(*LivenessTracker).Heartbeat")
 			okHB := false
-			ast.Inspect(hbf.Decl.Body, func(nd ast.Node) bool {
+			inspect(hbf.Decl.Body, func(nd ast.Node) bool {
 				if as, ok := nd.(*ast.AssignStmt); ok && len(as.Lhs) == 1 {
 					if ix, ok := ast.Unparen(as.Lhs[0]).(*ast.IndexExpr); ok && prog.SelField(hbf.Pkg.TypesInfo, ix.X) == mField && r.isParam(hbf, ix.Index, 0) {
 						okHB = true
@@ -417,7 +457,7 @@ func init() {
 			spl := r.P.Field("storage/snapshots", "Store", "sourceSplitters")
 			pend := r.P.Field("storage/snapshots", "storeState", "pendingSnapshot")
 			r.Site(rs.Decl.Pos(), "Store.RegisterSourceSplitter replaces the splitter and abandons the pending snapshot")
-			ast.Inspect(rs.Decl.Body, func(nd ast.Node) bool {
+			inspect(rs.Decl.Body, func(nd ast.Node) bool {
 				as, ok := nd.(*ast.AssignStmt)
 				if !ok || len(as.Lhs) != 1 || prog.SelField(ri, as.Lhs[0]) != spl {
 					return true
@@ -434,7 +474,7 @@ func init() {
 			// accepted: the store clears pendingSnapshot in RegisterSourceSplitter or in a method called from Job.start
 			checkClears := func(fi *prog.FuncInfo) bool {
 				found := false
-				ast.Inspect(fi.Decl.Body, func(nd ast.Node) bool {
+				inspect(fi.Decl.Body, func(nd ast.Node) bool {
 					if as, ok := nd.(*ast.AssignStmt); ok && len(as.Lhs) == 1 && prog.SelField(fi.Pkg.TypesInfo, as.Lhs[0]) == pend {
 						if tv, ok := fi.Pkg.TypesInfo.Types[as.Rhs[0]]; ok && tv.IsNil() {
 							found = true
@@ -444,7 +484,7 @@ func init() {
 				})
 				return found
 			}
-			ast.Inspect(start.Decl.Body, func(nd ast.Node) bool {
+			inspect(start.Decl.Body, func(nd ast.Node) bool {
 				if call, ok := nd.(*ast.CallExpr); ok {
 					if fn := r.P.CalleeFunc(start.Pkg.TypesInfo, call); fn != nil {
 						if fi := r.P.FuncInfoOf(fn); fi != nil && prog.RelPkg(fi.Pkg.PkgPath) == "storage/snapshots" && checkClears(fi) {
@@ -477,10 +517,10 @@ func init() {
 			r.Sim(sd.Decl, sd.Name(), spec)
 			// consumers of outputStream started per deploy
 			consumers := 0
-			ast.Inspect(sd.Decl.Body, func(nd ast.Node) bool {
+			inspect(sd.Decl.Body, func(nd ast.Node) bool {
 				if gs, ok := nd.(*ast.GoStmt); ok {
 					if lit, ok := ast.Unparen(gs.Call.Fun).(*ast.FuncLit); ok {
-						ast.Inspect(lit.Body, func(m ast.Node) bool {
+						inspect(lit.Body, func(m ast.Node) bool {
 							if rs, ok := m.(*ast.RangeStmt); ok && prog.SelField(si, rs.X) == out {
 								consumers++
 								// an unconditional, never-ending consumer started on every deploy
@@ -510,7 +550,7 @@ func init() {
 				return
 			}
 			setsStatus := func(n ast.Node, to types.Object) (pos token.Pos) {
-				ast.Inspect(n, func(m ast.Node) bool {
+				inspect(n, func(m ast.Node) bool {
 					call, ok := m.(*ast.CallExpr)
 					if !ok || len(call.Args) != 1 {
 						return true
@@ -525,7 +565,7 @@ func init() {
 			}
 			// (1) the literal that sets StatusRunning assigns the ticker from clock.Every on all paths
 			var lit *ast.FuncLit
-			ast.Inspect(st.Decl.Body, func(n ast.Node) bool {
+			inspect(st.Decl.Body, func(n ast.Node) bool {
 				if fl, ok := n.(*ast.FuncLit); ok && lit == nil && setsStatus(fl.Body, running).IsValid() {
 					lit = fl
 				}
@@ -547,36 +587,50 @@ func init() {
 			if n == 0 {
 				r.Fail(st.Name()+"$running:arm-ticker:none", lit.Pos(), nil, "the task that sets StatusRunning never assigns Job.checkpointTicker")
 			}
-			// (2) every transition to StatusPaused is followed, in the same block, by stopping the ticker
+			// (2) every transition to StatusPaused is followed by stopping the ticker: in the same
+			// statement (a helper that does both) or in a later statement of the same statement list
 			nPaused := 0
+			stopsTicker := func(n ast.Node) bool {
+				found := false
+				inspect(n, func(m ast.Node) bool {
+					if call, ok := m.(*ast.CallExpr); ok {
+						if sel, ok := ast.Unparen(call.Fun).(*ast.SelectorExpr); ok && sel.Sel.Name == "Stop" && prog.SelField(info, sel.X) == tick {
+							found = true
+						}
+					}
+					return true
+				})
+				return found
+			}
+			checkList := func(list []ast.Stmt) {
+				for i, s := range list {
+					es, ok := s.(*ast.ExprStmt)
+					if !ok || !setsStatus(es, paused).IsValid() {
+						continue
+					}
+					nPaused++
+					r.Site(es.Pos(), "transition to StatusPaused")
+					stopped := stopsTicker(es)
+					for _, later := range list[i+1:] {
+						if stopsTicker(later) {
+							stopped = true
+						}
+					}
+					if !stopped {
+						sc := r.P.ScopeAt(es.Pos())
+						r.Fail(sc.Name(r.P)+":pause-stops-ticker", es.Pos(), nil, "the job is set to StatusPaused without stopping the checkpoint ticker: it keeps starting checkpoints on the abandoned assembly, and a second ticker is armed on the next start")
+					}
+				}
+			}
 			for _, file := range r.P.Pkg("jobs").Syntax {
 				ast.Inspect(file, func(nd ast.Node) bool {
-					blk, ok := nd.(*ast.BlockStmt)
-					if !ok {
-						return true
-					}
-					for i, s := range blk.List {
-						es, ok := s.(*ast.ExprStmt)
-						if !ok || !setsStatus(es, paused).IsValid() {
-							continue
-						}
-						nPaused++
-						r.Site(es.Pos(), "transition to StatusPaused")
-						stopped := false
-						for _, later := range blk.List[i+1:] {
-							ast.Inspect(later, func(m ast.Node) bool {
-								if call, ok := m.(*ast.CallExpr); ok {
-									if sel, ok := ast.Unparen(call.Fun).(*ast.SelectorExpr); ok && sel.Sel.Name == "Stop" && prog.SelField(info, sel.X) == tick {
-										stopped = true
-									}
-								}
-								return true
-							})
-						}
-						if !stopped {
-							sc := r.P.ScopeAt(es.Pos())
-							r.Fail(sc.Name(r.P)+":pause-stops-ticker", es.Pos(), nil, "the job is set to StatusPaused without stopping the checkpoint ticker: it keeps starting checkpoints on the abandoned assembly, and a second ticker is armed on the next start")
-						}
+					switch x := nd.(type) {
+					case *ast.BlockStmt:
+						checkList(x.List)
+					case *ast.CaseClause:
+						checkList(x.Body)
+					case *ast.CommClause:
+						checkList(x.Body)
 					}
 					return true
 				})
@@ -609,7 +663,7 @@ func init() {
 			}
 			// (1) in evaluateClusterStatus: before `go func() { j.start() ... }`
 			var goLit *ast.FuncLit
-			ast.Inspect(ev.Decl.Body, func(nd ast.Node) bool {
+			inspect(ev.Decl.Body, func(nd ast.Node) bool {
 				if gs, ok := nd.(*ast.GoStmt); ok {
 					if lit, ok := gs.Call.Fun.(*ast.FuncLit); ok && r.exprCalls(info, lit.Body, st.Obj) {
 						goLit = lit
@@ -649,14 +703,14 @@ func init() {
 			// (2), (3): after Set(Running) / Set(Paused) in a task literal, evaluateClusterStatus is called before the task ends
 			follow := func(root ast.Node, owner string, to types.Object, tag, why string) {
 				n := 0
-				ast.Inspect(root, func(nd ast.Node) bool {
+				inspect(root, func(nd ast.Node) bool {
 					lit, ok := nd.(*ast.FuncLit)
 					if !ok {
 						return true
 					}
 					// literal that directly (not in nested literals) sets the status
 					direct := false
-					ast.Inspect(lit.Body, func(m ast.Node) bool {
+					inspect(lit.Body, func(m ast.Node) bool {
 						if inner, ok := m.(*ast.FuncLit); ok && inner != lit {
 							return false
 						}
@@ -711,7 +765,7 @@ func init() {
 			for _, pkgRel := range []string{"jobs"} {
 				pkg := r.P.Pkg(pkgRel)
 				for _, file := range pkg.Syntax {
-					ast.Inspect(file, func(nd ast.Node) bool {
+					inspect(file, func(nd ast.Node) bool {
 						es, ok := nd.(*ast.ExprStmt)
 						var call *ast.CallExpr
 						if ok {
